@@ -281,6 +281,28 @@ func (b *Body) freshRef(v ssa.Value) *T {
 		}
 	}
 	ft.allocRefs = append(ft.allocRefs, x.T)
+	// ... and from every reference stored in memory so far, at the places
+	// contracts load references from
+	st := b.curState
+	if st != nil {
+		for _, src := range sortedKeys(ft.refSources) {
+			parts := strings.Split(src, "|")
+			reg := parts[0]
+			cur := ft.region(st, reg)
+			xv := fmt.Sprintf("j!%d", ft.count("qv"))
+			if len(parts) == 2 && parts[1] == "[]" {
+				jv := fmt.Sprintf("j!%d", ft.count("qv"))
+				term := Sel(Sel(cur, L(xv)), L(jv))
+				ft.fact(Forall([][2]string{{xv, "Ref"}, {jv, "Int"}}, Not(Eq(term, x.T)), []*T{term}))
+				continue
+			}
+			term := Sel(cur, L(xv))
+			for _, sl := range parts[1:] {
+				term = A(sl, term)
+			}
+			ft.fact(Forall([][2]string{{xv, "Ref"}}, Not(Eq(term, x.T)), []*T{term}))
+		}
+	}
 	return x.T
 }
 
@@ -561,6 +583,9 @@ func (b *Body) indexAddr(x *ssa.IndexAddr, reach *T, st State) {
 		a := ft.addrOf(xv)
 		na := *a
 		es := ft.sortOf(arr.Elem())
+		if isByte(arr.Elem()) {
+			es = "Int"
+		}
 		na.Path = append(append([]PStep{}, a.Path...), PStep{Index: iv.T, Sort: es, Type: arr.Elem()})
 		b.safety("index", reach, And(A("<=", Int(0), iv.T), A("<", iv.T, Int(arr.Len()))), x.Pos(), "index in range")
 		b.nilCheck(xv, reach, x.Pos())
@@ -710,7 +735,12 @@ func (b *Body) convert(x *ssa.Convert, st State) {
 	case fs == "Int" && ts == "Float":
 		b.define(x, A("float.of.int", xv.T))
 	case fs == "Float" && ts == "Int":
-		b.define(x, A("int.of.float."+symSafe(to.String()), xv.T))
+		fn := "int.of.float." + symSafe(to.String())
+		if _, ok := ft.e.prelude.Fns[fn]; !ok && !ft.declared[fn] {
+			ft.declared[fn] = true
+			ft.decls = append(ft.decls, fmt.Sprintf("(declare-fun %s (Float) Int)", fn))
+		}
+		b.define(x, A(fn, xv.T)) // the range fact of the target type is added by define
 	case fs == "Float" && ts == "Float":
 		b.vals[x] = &Val{T: xv.T, Type: x.Type()}
 	case fs == ts && xv.T != nil:
